@@ -73,6 +73,7 @@ fn compile_field_values<E: quiver_core::effects::Effect>(
     let mut compiled_values = Vec::new();
     let mut stack_size = 0;
 
+    compiler.pending_operands += 1;
     for field in fields {
         match &field.value {
             ast::FieldValue::Chain(chain) => {
@@ -131,6 +132,7 @@ fn compile_field_values<E: quiver_core::effects::Effect>(
             }
         }
     }
+    compiler.pending_operands -= 1;
 
     Ok((compiled_values, stack_size))
 }
